@@ -1415,6 +1415,14 @@ func c09Finish(r *kit.Result, caseID string, l *c09Log, run, ref *c09Run) {
 // ---------------------------------------------------------------------------
 // TestVerif_C09_Logs: seeded logs of up to ~60 raft entries, R replicas each
 
+// c09Mix is splitmix64's finaliser.
+func c09Mix(x uint64) uint64 {
+	x += 0x9e3779b97f4a7c15
+	x = (x ^ (x >> 30)) * 0xbf58476d1ce4e5b9
+	x = (x ^ (x >> 27)) * 0x94d049bb133111eb
+	return x ^ (x >> 31)
+}
+
 func c09Plans(rng *kit.Rand, l *c09Log, nrep int) []c09Plan {
 	n := len(l.Entries)
 	ord := func() int {
@@ -1565,8 +1573,11 @@ func TestVerif_C09_Logs(t *testing.T) {
 			continue
 		}
 		rng := kit.NewRand(seed, 9_000_000+uint64(i))
-		o := c09GenOpts{MinCmds: 6, MaxCmds: 34, MaxEntries: 60, Chunking: i%3 != 0, TermBumps: i%4 != 1}
-		if i%5 == 0 {
+		// option selectors are a function of the case number only (replay) and are
+		// not correlated with i%shards (chunked logs cost about four times more)
+		h := c09Mix(uint64(i))
+		o := c09GenOpts{MinCmds: 6, MaxCmds: 34, MaxEntries: 60, Chunking: h%3 != 0, TermBumps: (h>>8)%4 != 1}
+		if (h>>16)%5 == 0 {
 			o.MaxCmds = 12
 		}
 		l := c09Generate(rng, o)
@@ -1618,8 +1629,9 @@ func TestVerif_C09_Small(t *testing.T) {
 		rng := kit.NewRand(seed, 9_500_000+uint64(i))
 		var l *c09Log
 		for {
-			o := c09GenOpts{MinCmds: 4, MaxCmds: 8, MaxEntries: 15, Chunking: i%3 == 1, TermBumps: i%4 == 3, TxnPct: 60}
-			if i%2 == 0 {
+			h := c09Mix(uint64(i) + 1<<32)
+			o := c09GenOpts{MinCmds: 4, MaxCmds: 8, MaxEntries: 15, Chunking: h%3 == 1, TermBumps: (h>>8)%4 == 3, TxnPct: 60}
+			if (h>>16)%2 == 0 {
 				o.Keys = []string{"a/k1", "a/d/x", "b/k1"} // few keys: most transactions overlap with other writers
 			}
 			l = c09Generate(rng, o)
